@@ -1,10 +1,86 @@
-"""C04 — fail-closed extraction of the element-type tables and dtype dispatch sets into Gen/C04Gen.v.
+"""C04 — all tensor representations agree on values and bytes for every dtype/shape.
 
-Everything here reads the Python *source* (ast), never the imported module, except the clearly labelled
-environment table (numpy/ml_dtypes item sizes of the numpy-type keys), which is measured from the installed
-packages because it is a fact about numpy, not about onnx_ir.
+Decided by
+  * Coq theorems (coq/theories/C04/Property.v, proofs in Proofs1-4.v) over the executable model C04/Model.v and the
+    tables/dispatch sets of Gen/C04Gen.v, which `generate` re-extracts (fail closed, python ast) from _enums.py,
+    _core.py and serde.py on every run;
+  * a correspondence check: the real representations are built from generated logical data, numpy() (as unsigned
+    bit patterns) / tobytes() / tofile() / nbytes / dtype / shape are observed, and case files embed the raw inputs
+    of each representation (as a `rep` term) plus the observations; Coq evaluates the model on the same inputs
+    (C04/Tie.v `agree`) and also checks the observations against the specification (`le_pack`, `elem`, `write`);
+  * a property oracle in Python (independent reference packer + onnx.numpy_helper as third voice) that supplies
+    concrete replays.
 
-Anything outside the expected syntactic shape raises translate.Unsupported (=> ck.gen_failed => broken).
+Model (C04/Model.v).  An element is its bit pattern x : N < 2^bw; no float arithmetic.  numpy()/ml_dtypes keep one
+sub-byte element per storage byte, the logical element is the low bw bits (`elem`; the harness checks on all 256
+bytes that ml_dtypes int4/uint4/int2/uint2 read exactly those bits).  pack_4bitx2/unpack_4bitx2/pack_2bitx4/
+unpack_2bitx4 are written after the numpy code (ravel, odd/non-multiple `resize` zero fill, `&=`, `<<=` with uint8
+wrap-around, strided `|` as pair/quad recursion, the `size == prod+1` truncation, the final `resize(dims)` zero
+fill/truncate).  Representations: RArray (ir.Tensor over ndarray: any storage bytes), RTorch, RPacked, RProto (record
+with ALL storage fields, so the different field orders of numpy() and tobytes() are visible), RExternal (file bytes,
+offset/length options; mmap + frombuffer errors; `length or nbytes`), RLazy (declared dtype/shape + delegation),
+`serialize` (proto copied / raw_data := tobytes()).  tofile: destination = (content, position); `write` overwrites/
+extends with zero fill; ExternalTensor.tofile = copy_file_range phase under ANY schedule of partial copies (list of
+counts chosen by the kernel, ending early = errno fallback) followed by the chunked read/write loop (fuel = bytes to
+copy; out-of-fuel is an error value excluded by the theorem).  String tensors: separate small model (numpy 'S'
+arrays drop trailing NULs).
+
+Theorems (all closed under the global context; all dtypes via the generated table, all sizes/shapes/values):
+  C04_tables_consistent      30 clauses over the generated tables by vm_compute + every dispatch set of the code
+                             selects exactly the dtypes of the bit width its branch handles
+  C04_meta_agree             dtype / shape of every representation
+  C04_nbytes                 len(tobytes()) = nbytes = ceil(size*bw/8)
+  C04_pack_unpack            k in {2,4}: unpack(pack xs)(|xs|) = xs mod 2^k for ANY storage bytes and length;
+                             pack(unpack bs) = bs for bytes with zero padding; numpy code = arithmetic packing
+  C04_numpy_agree            numpy() of every representation holds the logical elements
+  C04_bytes_agree            tobytes() = le_pack; tofile() = write of exactly those bytes at the current position for
+                             every kernel/chunk schedule; frame property of write (before/after unchanged, position)
+  C04_external_any_offset    file pre ++ bytes ++ post, offset |pre|, any pre/post (post = [] included), length None/nbytes
+  C04_serialize_represents   the serialized proto represents the same data
+  C04_strings_agree_partial  string representations agree when no element ends in NUL  (PARTIAL: the full statement
+                             is false, see C04_string_trailing_nul_refuted = known finding string-trailing-nul)
+Bit-level lemmas are finite sweeps (16x16 nibble pairs, 4^4 crumb quadruples) lifted with forallb_forall.
+
+Readings of the English.  "equal element values": compared as bit patterns of the logical element (so NaN payloads
+and -0.0 must survive; for int4/int2 kept in int8 arrays the sign-extension bits of the storage byte are not part of
+the element).  "same logical data" for packed/proto/external inputs: bytes whose padding bits are zero (PackedTensor
+and raw_data pass padding bits through; covered as malformed inputs, model = code).  "any position": including a
+seek past the end (zero fill).  A user-supplied numpy 'S' array that already lost its trailing NULs is the logical
+data of that tensor.  nbytes uses float arithmetic in the code: exact for size < 2^50 (assumption; checked up to 2^50).
+
+Modelled, not verified: numpy view/astype/frombuffer/resize/tofile, ml_dtypes storage, protobuf (presence of raw_data,
+float_data bit preservation incl. signalling NaNs — observed to hold), mmap, copy_file_range, torch memory layout,
+Python file objects; big-endian branches; path containment and invalidate()/release() state (C10 / not in scope);
+a failed _load leaves the mmap behind so a second tobytes() on a malformed external tensor answers differently
+(the model describes fresh objects; well-formed cases are observed on one object in sequence).
+
+Findings on the unchanged tree (after the three fix: commits, whose witnesses are corpus cases):
+  * the two hints of the property text (odd-length 4-bit data in int32_data, tofile() at a non-zero destination
+    offset) do NOT reproduce: proved for the model, 0 mismatches / 0 oracle failures over the grid;
+  * string-trailing-nul (known finding, proposed_fixes/C04-string-trailing-nul.diff): numpy() of list/proto-backed
+    string tensors drops trailing NUL bytes of an element, the object-array-backed representation keeps them.
+
+Mutants of /repo tried (scratch git worktree + VERIF_REPO, quick tier, seed 0) and which part caught them:
+  M1  pack_4bitx2 without `&= 0x0F`                          oracle replay (INT4 [15] kept in int8: tobytes ff != 0f) + correspondence
+  M3  ExternalTensor._load count = size//2 + size%2 (2-bit)   oracle replay (UINT2 x3 at end of file: numpy() raises) [the repaired defect]
+  M4  PackedTensor.numpy without the 2-bit branch             oracle replay (corpus witness) [the repaired defect]
+  M5  FLOAT4E2M1 dropped from the uint8 set of proto tobytes  proof (dispatch_table_true) + oracle replay (AssertionError)
+  M6  kernel-copy path does not seek past the copied bytes    oracle replay (file position 2, expected 3)
+  M8  short name of INT2 = "i4"                               proof (tables_consistent_true) + oracle-tables replay (from_short_name)
+  M9  UINT32 in uint64_data not narrowed in tobytes           oracle replay
+  M10 external slice one byte short when `length` is given     oracle replay
+  M11 unpack_2bitx4 third mask 0x70                           correspondence only -> no-failing-input-found (ml_dtypes ignores the
+                                                              extra storage bit: no public value changes)
+  M12 chunk loop decrements by the chunk size                 correspondence on malformed (short file: OSError no longer raised) ->
+                                                              no-failing-input-found (equivalent on well-formed data)
+  M13 offset ignored when one item is read                    oracle replay
+  M14 chunk loop reads a full chunk past the tensor end       oracle replay (BytesIO destination, data followed by other bytes)
+  M15 serialize_tensor_into writes numpy().tobytes()           oracle replay (sub-byte dtypes) + third voice
+  M16 nbytes floor instead of ceil                             generation fails closed + oracle-nbytes / oracle replays
+Unchanged tree: no VIOLATION for VERIF_SEED 0..3 (only KNOWN-FINDING string-trailing-nul).
+
+Shared-helper notes for the orchestrator: case files are compiled with at most 4 coqc in parallel (own pool instead of
+ck.coq_eval_many, which uses every core); C04/Tie.v is not in the closure of Property.v, run() builds it with common.make.
 """
 
 from __future__ import annotations
@@ -142,10 +218,17 @@ def _tables() -> dict:
     out["floating"] = _return_in_set(T.find_function(mod, "DataType.is_floating_point"), members)
     out["integer"] = _return_in_set(T.find_function(mod, "DataType.is_integer"), members)
     out["signed"] = _return_in_set(T.find_function(mod, "DataType.is_signed"), members)
-    _is_expr(T.find_function(mod, "DataType.itemsize"), "return self.bitwidth / 8")
-    _is_expr(T.find_function(mod, "DataType.is_string"), "return self == DataType.STRING")
     core = T._src(CORE)
-    _is_expr(T.find_function(core, "TensorBase.nbytes"), "return math.ceil(self.dtype.itemsize * self.size)")
+    # scalar formulas the hand model relies on: a different shape fails the generation (closed), but the tables
+    # above stay available to the harness so that the oracle can still look for a concrete failing input
+    out["errors"] = []
+    for m_, q, want in ((mod, "DataType.itemsize", "return self.bitwidth / 8"),
+                        (mod, "DataType.is_string", "return self == DataType.STRING"),
+                        (core, "TensorBase.nbytes", "return math.ceil(self.dtype.itemsize * self.size)")):
+        try:
+            _is_expr(T.find_function(m_, q), want)
+        except T.Unsupported as e:
+            out["errors"].append(str(e))
     e = T.find_assign(core, "_NON_NUMPY_NATIVE_TYPES")
     if not (isinstance(e, ast.Call) and isinstance(e.func, ast.Name) and e.func.id == "frozenset" and len(e.args) == 1
             and isinstance(e.args[0], (ast.Tuple, ast.List, ast.Set))):
@@ -174,6 +257,8 @@ def _tables() -> dict:
 
 def gen_text() -> str:
     t = tables()
+    if t["errors"]:
+        raise T.Unsupported("; ".join(t["errors"]))
     nl = lambda xs: "[" + "; ".join(f"{x}%N" for x in xs) + "]"  # noqa: E731
     L = ["(* GENERATED by /verif/harness/props/c04.py (ast of _enums.py, _core.py, serde.py) on every run — do not edit. *)",
          "From Coq Require Import NArith List.", "Import ListNotations.", "Open Scope N_scope.", ""]
@@ -563,6 +648,10 @@ def run_tofile(t, dest: dict, workdir: str):
     """tofile() into a destination; returns ('ok', (content, pos)) or ('raise', name)."""
     kind, n, pos = dest["kind"], dest["len"], dest["pos"]
     init = dest_content(n)
+    from onnx_ir import _core
+    saved_chunk = _core._EXTERNAL_TENSOR_COPY_CHUNK_SIZE
+    if dest.get("chunk"):      # make the userspace copy loop of ExternalTensor.tofile iterate (rebinding, not editing)
+        _core._EXTERNAL_TENSOR_COPY_CHUNK_SIZE = dest["chunk"]
     try:
         if kind == "bytesio":
             f = io.BytesIO(init)
@@ -586,6 +675,8 @@ def run_tofile(t, dest: dict, workdir: str):
             return ("ok", (f.read(), end))
     except Exception as e:  # noqa: BLE001
         return ("raise", common.exn_name(e))
+    finally:
+        _core._EXTERNAL_TENSOR_COPY_CHUNK_SIZE = saved_chunk
 
 
 def dest_model(dest: dict) -> tuple[bytes, int]:
@@ -864,7 +955,7 @@ def gen_dests(rng, nbytes: int, full: bool) -> list[dict]:
         pos = rng.choice([0, 1, n // 2, n, n + 2]) if k != "file-seq" else rng.choice([0, 1, n])
         if k == "file-seq":
             pos = min(pos, n)
-        out.append({"kind": k, "len": n, "pos": pos})
+        out.append({"kind": k, "len": n, "pos": pos, "chunk": rng.choice([None, None, 1, 3, 4])})
     return out
 
 
@@ -873,15 +964,16 @@ def gen_wellformed(ck) -> list[dict]:
     rng = ck.rng
     specs = []
     modes = ["random", "special", "ones", "count", "random"]
-    for name in NUMERIC():
-        variants = rep_variants(name)
-        for n in range(10):
-            for vi, (rep, params) in enumerate(variants):
-                shape = rng.choice(shapes_for(rng, n))
-                mode = modes[(n + vi) % len(modes)]
-                xs = gen_bits(rng, name, n, mode)
-                specs.append({"dtype": name, "shape": shape, "bits": xs, "rep": rep, "params": params,
-                              "dests": gen_dests(rng, ref_nbytes(name, n), full=(n in (0, 1, 5)))})
+    for rnd in range(1 if not ck.thorough else 4):      # thorough: the grid again with other shapes/values/destinations
+        for name in NUMERIC():
+            variants = rep_variants(name)
+            for n in range(10 if rnd == 0 else 18):
+                for vi, (rep, params) in enumerate(variants):
+                    shape = rng.choice(shapes_for(rng, n))
+                    mode = modes[(n + vi + rnd) % len(modes)]
+                    xs = gen_bits(rng, name, n, mode)
+                    specs.append({"dtype": name, "shape": shape, "bits": xs, "rep": rep, "params": params,
+                                  "dests": gen_dests(rng, ref_nbytes(name, n), full=(n in (0, 1, 5)))})
     n_rand = 150 if not ck.thorough else 2500
     names = NUMERIC()
     for _ in range(n_rand):
@@ -1165,14 +1257,50 @@ def env_contract_subbyte(ck) -> None:
         ck.count(256)
 
 
+def oracle_tables(name: str) -> list[str]:
+    """Property clause "the element-type tables are mutually consistent", on the public API of one member."""
+    import onnx_ir as ir
+    m = ir.DataType[name]
+    bad = []
+    try:
+        bw = m.bitwidth
+    except TypeError:
+        bw = None
+    if bw is None and name not in ("STRING", "UNDEFINED"):
+        bad.append("no bit width")
+    if bw is not None:
+        if m.itemsize * 8 != bw:
+            bad.append(f"itemsize {m.itemsize} * 8 != bitwidth {bw}")
+        if m.numpy().itemsize * 8 != max(bw, 8):
+            bad.append(f"numpy type {m.numpy()} has {m.numpy().itemsize} bytes for a {bw}-bit type")
+    try:
+        if ir.DataType.from_short_name(m.short_name()) != m:
+            bad.append(f"from_short_name(short_name()) = {ir.DataType.from_short_name(m.short_name())!r}")
+    except TypeError as e:
+        bad.append(f"short name: {e}")
+    if name != "UNDEFINED":
+        try:
+            if ir.DataType.from_numpy(m.numpy()) != m:
+                bad.append(f"from_numpy(numpy()) = {ir.DataType.from_numpy(m.numpy())!r}")
+        except TypeError as e:
+            bad.append(f"numpy type: {e}")
+    if m.is_floating_point() and m.is_integer():
+        bad.append("both floating point and integer")
+    if m.is_floating_point() and not m.is_signed():
+        bad.append("floating point but not signed")
+    if m.is_integer() and m.is_signed() == name.startswith("U"):
+        bad.append("signedness contradicts the name")
+    return bad
+
+
 def tables_runtime_check(ck) -> None:
     """The generated tables describe what the imported module does (translator validation): bitwidth, itemsize,
-    numpy(), from_numpy, short_name, from_short_name, is_* of every member, against tables()."""
+    numpy(), from_numpy, short_name, from_short_name, is_* of every member, against tables(); and the table
+    clause of the property on the public API (concrete replay when it fails)."""
     import ml_dtypes
     import numpy as np
     import onnx_ir as ir
     t = tables()
-    byval = {v: n for n, v in t["members"]}
     if {m.name: int(m) for m in ir.DataType} != dict(t["members"]):
         ck.broken("translation:DataType-members", "enum members at run time differ from the source table")
     bwm, short = dict(t["bitwidth"]), dict(t["short"])
@@ -1180,20 +1308,24 @@ def tables_runtime_check(ck) -> None:
     for m in ir.DataType:
         v = int(m)
         ck.count()
+        bad = oracle_tables(m.name)
+        if bad:
+            ck.violation({"kind": "oracle-tables", "tables": {"dtype": m.name}, "failures": bad})
         try:
             got = m.bitwidth
         except TypeError:
             got = None
         if got != bwm.get(v):
             ck.broken("translation:bitwidth", f"{m.name}: run time {got}, table {bwm.get(v)}")
-        if got is not None and m.itemsize * 8 != got:
-            ck.broken("translation:itemsize", f"{m.name}: itemsize {m.itemsize} * 8 != bitwidth {got}")
-        if m.short_name() != short.get(v) or ir.DataType.from_short_name(m.short_name()) != m:
-            ck.broken("translation:short_name", f"{m.name}: {m.short_name()} / table {short.get(v)}")
+        try:
+            if m.short_name() != short.get(v):
+                ck.broken("translation:short_name", f"{m.name}: {m.short_name()} / table {short.get(v)}")
+        except TypeError:
+            ck.broken("translation:short_name", f"{m.name}: no short name at run time")
         if v in npk:
             key = npk[v]
             want = np.dtype(getattr(ml_dtypes, key.split(".", 1)[1])) if key.startswith("ml_dtypes.") else np.dtype(key)
-            if m.numpy() != want or ir.DataType.from_numpy(m.numpy()) != m:
+            if m.numpy() != want:
                 ck.broken("translation:numpy", f"{m.name}: numpy() {m.numpy()} table {key}")
         for fn, key in (("is_floating_point", "floating"), ("is_integer", "integer"), ("is_signed", "signed")):
             if getattr(m, fn)() != (v in t[key]):
@@ -1398,6 +1530,16 @@ def replay(rp: dict) -> int:
     wd = os.path.join(common.SCRATCH_ROOT, f"replay-C04-{os.getpid()}")
     os.makedirs(wd, exist_ok=True)
     try:
+        if rp.get("tables"):
+            bad = oracle_tables(rp["tables"]["dtype"])
+            print(json.dumps({"tables": rp["tables"], "failures": bad}, indent=1))
+            return 1 if bad else 0
+        if rp.get("kind") == "oracle-nbytes":
+            import onnx_ir as ir
+            lt = ir.LazyTensor(lambda: None, dtype=ir.DataType[rp["dtype"]], shape=ir.Shape([rp["size"]]))
+            ok = lt.nbytes == ref_nbytes(rp["dtype"], rp["size"])
+            print(json.dumps({"dtype": rp["dtype"], "size": rp["size"], "nbytes": lt.nbytes, "required": ref_nbytes(rp["dtype"], rp["size"])}))
+            return 0 if ok else 1
         if rp.get("strings"):
             w = rp["strings"]
             ss = [bytes.fromhex(x) for x in w["strings_hex"]]
